@@ -200,3 +200,55 @@ def check_constant_leaf(rep, f, valtext, slot, rule='R-OPSUM'):
             rep.fail(rule, f.module.rel, f.qual, slot, 'constant signal %s: %s' % (ast.unparse(lst), '; '.join(probs)), lst.lineno)
         else:
             rep.ok(rule, f.module.rel, f.qual, slot, 'constant signal %s' % ast.unparse(lst), lst.lineno)
+
+
+def check_first_sample(ix, rep, funcs, label, rule='R-SEGOUT'):
+    """output compression `if value != previous or ...: out.append([t, value])` in a forward loop: the variable `previous` must start as
+    NaN (equal to no value) or the test must hold on the first iteration; started at a possible value (+-inf), the first sample is dropped
+    when the signal begins with that value and the output no longer starts at the beginning of the domain"""
+    n = 0
+    for f in funcs:
+        parents = {}
+        for p in ast.walk(f.node):
+            for c in ast.iter_child_nodes(p):
+                parents[id(c)] = p
+        for st in ast.walk(f.node):
+            if not isinstance(st, ast.If):
+                continue
+            cmp_ = None
+            disj = st.test.values if isinstance(st.test, ast.BoolOp) and isinstance(st.test.op, ast.Or) else [st.test]
+            for t in disj:
+                if isinstance(t, ast.Compare) and len(t.ops) == 1 and isinstance(t.ops[0], ast.NotEq) and isinstance(t.comparators[0], ast.Name) \
+                        and isinstance(t.left, (ast.Name, ast.Subscript)):
+                    cmp_ = t
+            if cmp_ is None:
+                continue
+            appends = [c for s2 in st.body for c in ast.walk(s2) if isinstance(c, ast.Call) and isinstance(c.func, ast.Attribute) and c.func.attr == 'append']
+            if not appends:
+                continue
+            # enclosing forward loop
+            lp = parents.get(id(st))
+            while lp is not None and not isinstance(lp, (ast.For, ast.While)):
+                lp = parents.get(id(lp))
+            if not isinstance(lp, ast.For) or 'reversed' in ast.unparse(lp.iter):
+                continue
+            pname = cmp_.comparators[0].id
+            # is the compression variable updated to the value at the end of each iteration?
+            updated = any(isinstance(s2, ast.Assign) and isinstance(s2.targets[0], ast.Name) and s2.targets[0].id == pname for s2 in lp.body)
+            if not updated:
+                continue
+            init = None
+            for s2 in ast.walk(f.node):
+                if isinstance(s2, ast.Assign) and isinstance(s2.targets[0], ast.Name) and s2.targets[0].id == pname and s2.lineno < lp.lineno:
+                    init = s2.value
+            n += 1
+            rep.analysed(f)
+            first_iter = any(isinstance(t, ast.Compare) and ast.unparse(t).replace(' ', '') in ('i==0', '0==i') for t in disj)
+            is_nan = init is not None and isinstance(init, ast.Call) and ast.unparse(init).replace('"', "'").lower() == "float('nan')"
+            slot = '%s:first-sample:%s' % (label, pname)
+            if is_nan or first_iter:
+                rep.ok(rule, f.module.rel, f.qual, slot, 'the first sample is always emitted', st.lineno)
+            else:
+                rep.fail(rule, f.module.rel, f.qual, slot, 'the compression variable `%s` starts as %s, a value the signal can take: when the result begins with that value its first '
+                         'sample is dropped and the output no longer starts at the beginning of the domain' % (pname, ast.unparse(init) if init is not None else 'undefined'), st.lineno)
+    return n
